@@ -34,9 +34,10 @@ const (
 	opWg     // WaitGroup Add / Done
 	opWgWait // WaitGroup Wait
 	opChild  // waiting for a real child process
+	opSleep  // time.Sleep: the timer fires only when nothing else can run
 )
 
-var kindNames = []string{"start", "send", "recv", "select", "lock", "unlock", "close", "spawn", "yield", "exit", "fs", "mem", "wg", "wgwait", "child"}
+var kindNames = []string{"start", "send", "recv", "select", "lock", "unlock", "close", "spawn", "yield", "exit", "fs", "mem", "wg", "wgwait", "child", "sleep"}
 
 type chanI interface {
 	label() string
@@ -46,6 +47,9 @@ type chanI interface {
 	slotClock() ([]int, []int)
 	npending(self *Thread, send bool) int
 	strictlyReady() bool
+	strictlySendable() bool
+	prepare(self *Thread, op *Op, send bool)
+	Cap() int
 }
 
 // Op is the pending visible operation of a thread.
@@ -54,8 +58,10 @@ type Op struct {
 	ch        chanI
 	mu        *Mutex
 	wg        *WaitGroup
-	cases     []chanI // select (recv cases only)
-	hasDef    bool    // select with default
+	cases     []chanI       // select: channel of every case
+	dirs      []bool        // select: true = send case
+	svals     []interface{} // select: value of every send case
+	hasDef    bool          // select with default
 	completed bool    // partner already performed the transfer for us
 	val       interface{}
 	ok        bool
@@ -68,7 +74,14 @@ type Op struct {
 	memW      bool
 	child     *childProc
 	desc      string
+	prepared  bool
+	partner   *Thread // rendezvous partner served by this step
+	letIn     *Thread // sender blocked on a full buffer that this receive lets in
+	selCase   int     // select: chosen case (-1 = default / none)
+	preClk    []int   // clock of what causally precedes the step (message being received)
 }
+
+func (op *Op) isSendCase(i int) bool { return i < len(op.dirs) && op.dirs[i] }
 
 // Thread is one controlled goroutine.
 type Thread struct {
@@ -134,6 +147,7 @@ type Sched struct {
 	steps      []stepInfo
 	vobjs      map[string]*vobj
 	curStepClk []int
+	curRaceClk []int
 	sleep      map[string]bool
 	fsHist     []fsRec
 	curAccs    []access
@@ -281,8 +295,15 @@ func (s *Sched) enabled(t *Thread) bool {
 		if op.hasDef {
 			return true
 		}
-		for _, c := range op.cases {
-			if c != nil && !isNilChan(c) && c.canRecv(t) {
+		for i, c := range op.cases {
+			if c == nil || isNilChan(c) {
+				continue
+			}
+			if op.isSendCase(i) {
+				if c.canSend(t) {
+					return true
+				}
+			} else if c.canRecv(t) {
 				return true
 			}
 		}
@@ -293,6 +314,15 @@ func (s *Sched) enabled(t *Thread) bool {
 		return op.wg.n <= 0
 	case opChild:
 		return op.child.exited()
+	case opSleep:
+		// waiting is made visible: a sleeper (polling / retry loop) runs only when no other
+		// thread can, otherwise the execution space would be cyclic
+		for _, o := range s.threads {
+			if o != t && !o.done && o.pending != nil && o.pending.kind != opSleep && s.enabled(o) {
+				return false
+			}
+		}
+		return true
 	}
 	return false
 }
@@ -501,7 +531,11 @@ func Yield(tag string) {
 // Note records a thread-local observation; it is not a visible operation.
 func Note(e string) {
 	s := Cur
-	s.Notes = append(s.Notes, s.me().id+":"+e)
+	t := s.me()
+	s.Notes = append(s.Notes, t.id+":"+e)
+	if HistHash {
+		t.hist = h64(fmt.Sprintf("%x", t.hist), "note|"+e)
+	}
 }
 
 // Event records a monitored event. With EventsDependent it is a visible operation that
@@ -537,6 +571,94 @@ func (s *Sched) NoteList() []string {
 	}
 	return ev
 }
+
+// prepareOp takes the branch choices of the step t is about to perform (ready select case,
+// which blocked partner) before the step's clock and races are computed.
+func (s *Sched) prepareOp(t *Thread, op *Op) {
+	if op.prepared || op.completed {
+		return
+	}
+	op.prepared = true
+	switch op.kind {
+	case opSend:
+		if op.ch != nil && !isNilChan(op.ch) {
+			op.ch.prepare(t, op, true)
+		}
+	case opRecv:
+		if op.ch != nil && !isNilChan(op.ch) {
+			op.ch.prepare(t, op, false)
+		}
+	case opSelect:
+		if op.hasDef {
+			for _, c := range op.cases {
+				if c != nil && !isNilChan(c) && c.Cap() == 0 {
+					// whether a partner has ARRIVED at an unbuffered channel is not a visible
+					// operation of this model; a non-blocking poll of it cannot be explored
+					// soundly, so the engine refuses instead of guessing (never a VIOLATION)
+					s.abort("unsupported: select with default over an unbuffered channel")
+				}
+			}
+		}
+		if !op.hasDef {
+			for i := range op.cases {
+				if op.isSendCase(i) {
+					// validated only for the non-blocking form (try-send on a buffered channel);
+					// the reduced explorer disagreed with plain enumeration on a blocking select
+					// that mixes send and receive cases, so the engine refuses it
+					s.abort("unsupported: blocking select with a send case")
+				}
+			}
+		}
+		ready := []int{}
+		strict := false
+		for i, c := range op.cases {
+			if c == nil || isNilChan(c) {
+				continue
+			}
+			if op.isSendCase(i) {
+				if c.canSend(t) {
+					ready = append(ready, i)
+					if c.strictlySendable() {
+						strict = true
+					}
+				}
+			} else if c.canRecv(t) {
+				ready = append(ready, i)
+				if c.strictlyReady() {
+					strict = true
+				}
+			}
+		}
+		op.selCase = -1
+		if DebugSel {
+			pend := []string{}
+			for _, o := range s.threads {
+				if o.pending != nil {
+					pend = append(pend, o.id+":"+s.opString(o.pending)+fmt.Sprint(o.pending.completed, o.done))
+				}
+			}
+			fmt.Printf("SELECT thr=%s hasDef=%v ready=%v strict=%v pend=%v\n", t.id, op.hasDef, ready, strict, pend)
+		}
+		if len(ready) == 0 {
+			return
+		}
+		k := 0
+		if op.hasDef && !strict {
+			// every ready case depends on a partner that is pending at its op: in Go the partner
+			// may not have arrived yet, so default is a possible outcome too
+			k = s.pickAlt(len(ready)+1, "select-or-default")
+			if k == len(ready) {
+				return
+			}
+		} else if len(ready) > 1 {
+			k = s.pickAlt(len(ready), "select")
+		}
+		op.selCase = ready[k]
+		op.cases[op.selCase].prepare(t, op, op.isSendCase(op.selCase))
+	}
+}
+
+var DebugSel bool
 
 // pickAlt is a non-thread choice with n alternatives.
 func (s *Sched) pickAlt(n int, what string) int {
